@@ -66,6 +66,8 @@ pub enum Funds {
 pub enum Op {
     Stake { sender: P, mint_to: MintTo, flag: Option<bool>, expected: bool, funds: Funds, faults: Vec<bool> },
     Unstake { sender: P, funds: Funds },
+    /// unstake exactly the amount minted by the most recent stake (round-trip clause of C04)
+    UnstakeMinted { sender: P },
     Submit { sender: P },
     Withdraw { sender: P, batch: u64 },
     Rewards { sender: P, funds: Funds, faults: Vec<bool> },
@@ -95,6 +97,7 @@ impl Op {
         match self {
             Op::Stake { sender, .. }
             | Op::Unstake { sender, .. }
+            | Op::UnstakeMinted { sender }
             | Op::Submit { sender }
             | Op::Withdraw { sender, .. }
             | Op::Rewards { sender, .. }
@@ -180,6 +183,16 @@ pub fn run(b: &mut Built, op: &Op, pfx: &str, env: Envelope) -> StepOut {
             }
             let s = who_addr(&who, sender);
             b.chain.execute(&s, &funds_coin(&who, funds, u), ExecuteMsg::LiquidUnstake {})
+        }
+        Op::UnstakeMinted { sender } => {
+            let s = who_addr(&who, sender);
+            let (paid, minted) = b.last_stake.clone().expect("SYMX-HARNESS: UnstakeMinted without a previous stake");
+            let amt = if symcore::is_concrete_mode() { minted.parse::<u128>().expect("SYMX-HARNESS: minted amount is not a literal") } else { symcore::mk(minted.clone()) };
+            let r = b.chain.execute(&s, &funds_coin(&who, &Funds::Lst, Uint128::new(amt)), ExecuteMsg::LiquidUnstake {});
+            if r.is_ok() && !pre.reqs.contains_key(&(pre.pending_id, s.clone())) {
+                b.roundtrip = Some((s.clone(), paid, minted));
+            }
+            r
         }
         Op::Submit { sender } => {
             let s = who_addr(&who, sender);
@@ -353,6 +366,12 @@ pub fn run(b: &mut Built, op: &Op, pfx: &str, env: Envelope) -> StepOut {
             }
             Op::Stake { .. } => {
                 b.ghost.swept = t::add(&b.ghost.swept, &t::sub(&post.fees, &pre.fees));
+                let paid = inputs.iter().find(|(n, _)| n.ends_with("amt")).map(|x| x.1.clone()).unwrap_or_else(|| "0".into());
+                for m in msgs {
+                    if let Emitted::Mint { amount, .. } = m {
+                        b.last_stake = Some((paid.clone(), amount.clone()));
+                    }
+                }
             }
             Op::Recover { .. } => {
                 for (seq, _) in pre.packets.iter().filter(|(k, _)| !post.packets.contains_key(k)) {
@@ -786,6 +805,13 @@ pub fn post_op(cx: &Ctx, b: &Built, op: &Op, s: &StepOut) {
                     prove(f, "C19:burn message carries exactly the batch total", t::eq(amount, &pb.total));
                 }
                 claim(f, "C03:submit emits no other message", msgs.len() == 1 + posts(msgs).len());
+                if let Some((user, paid, minted)) = &b.roundtrip {
+                    if let Some(own) = pre.reqs.get(&(pid, user.clone())) {
+                        // stake `paid`, unstake the minted amount at once, submit (alone or together with other requests):
+                        // the share of the set-aside amount that belongs to that request never exceeds what was paid in
+                        prove(f, "C04:staking then immediately unstaking never returns more than was paid in", t::implies(&t::eq(own, minted), &t::le(&t::mulratio(&e, own, &pb.total), paid)));
+                    }
+                }
                 reqs_same(f, "C05:submit leaves requests untouched", pre, post, None);
                 if let Some(np) = post.batches.get(&(pid + 1)) {
                     prove(f, "C06:new pending batch starts with a zero total", t::eq(&np.total, "0"));
@@ -1090,7 +1116,7 @@ pub fn post_op(cx: &Ctx, b: &Built, op: &Op, s: &StepOut) {
                 crate::cfgops::check_update(cx, s, *sections);
             }
         }
-        Op::Donate { .. } => {}
+        Op::Donate { .. } | Op::UnstakeMinted { .. } => {}
     }
     // C08 "any other caller gets an error and nothing changes"
     if !s.tx.is_ok() {
